@@ -147,6 +147,7 @@ def generate(rng, tier, cls):
             'own_lf': rng.chance(0.1),
             'stream': gen.gen_stream(rng)[0],
             'short_hdr': rng.randint(0, 999) if rng.chance(0.12) else None,
+            'shadow': rng.below(50) if rng.chance(0.08) else None,
             'block_size': rng.choice([None, None, 1, 5, 97])}
 
 
@@ -232,11 +233,11 @@ def execute(scn, L):
                               stream=scn.get('stream') if scn.get('stream')
                               in ('sim', 'bytesio', 'buffered') else 'sim',
                               buf=64, actor='R',
-                              extras={'short_at': header_short_reads(
-                                  data, scn['short_hdr'])}
-                              if isinstance(scn.get('short_hdr'), int)
-                              and b'\r' not in optstr.replace(b'\r\n', b'')
-                              else None)
+                              extras=dict(
+                                  {'short_at': header_short_reads(
+                                      data, scn['short_hdr'])}
+                                  if isinstance(scn.get('short_hdr'), int)
+                                  else {}, shadow=scn.get('shadow')))
     out.absorb(w)
     out.case_key = pipe.scn_digest([ctx, optstr.hex(), crlf, own_lf])
     out.nontrivial = bool(optstr)
